@@ -69,10 +69,10 @@ func (e *env) entries(D *dom, in *input) []*big.Int {
 func (e *env) exprs() {
 	c := e.c
 	F := e.F
-	sizes := []int{1, 2, 4, 8, 32}
-	trials := c.Pick(18, 60)
+	sizes := []int{1, 2, 4, 8, 32, 128}
+	trials := c.Pick(36, 108)
 	if c.Thorough() {
-		sizes = append(sizes, 256)
+		sizes = append(sizes, 1024)
 	}
 	if e.race {
 		sizes, trials = []int{8, 32}, 4
@@ -384,7 +384,7 @@ func (e *env) shuffled() {
 	c := e.c
 	F := e.F
 	sizes := []int{1, 2, 4, 8, 32}
-	trials := c.Pick(12, 36)
+	trials := c.Pick(36, 144)
 	if c.Thorough() {
 		sizes = append(sizes, 128)
 	}
@@ -460,7 +460,7 @@ func (e *env) copyConstraint() {
 	c := e.c
 	F := e.F
 	sizes := []int{1, 2, 4, 8, 32, 128}
-	trials := c.Pick(12, 36)
+	trials := c.Pick(36, 144)
 	if c.Thorough() {
 		sizes = append(sizes, 512)
 	}
